@@ -30,6 +30,15 @@ CLAIMED = {
              'the writers emit are dispatched on by the readers; writer getter and reader setter pair the same attribute; lon/lat axis and bbox corners agree across formats. '
              'NOT decided: value-level equality of the round trip, string-table arithmetic, compression layers, escaping (C14).',
         design='5/C01', note='trusts clang template instantiation of the drivers, the enumerator-name convention of protobuf_tags.hpp, protozero accessor semantics'),
+    'C03': dict(
+        technique='static analysis: guard-dominance ("checkpoint edge") rules over a frozen table of protected operations, escaping-exception analysis, builder-protocol typestate of the XML state machine, thrown-type closure',
+        text='Decides presence and placement of each protective mechanism on every path to the operation it protects: string-table access only via at() with out_of_range mapped; length '
+             'bounds before every string-table insert and builder append; blob/header size limits before use on both input paths; o5m section ends, reference-table bounds, bytes-available '
+             'and cursor dereferences end-checked; member types range-checked; expat callbacks noexcept and contained, exception stored and parser stopped, entity declarations rejected; '
+             'every throw under io/builder/osm derives from std::exception; UTF-8 decode bounded; length-carrying add_tag call sites NUL-safe (two instances are the genuine defect F4); XML '
+             'comment obligation closed exactly once (two instances are the genuine defect F3); sub-builders reset before siblings/objects; who-may-abort list. '
+             'NOT decided: absence of out-of-bounds access in general, termination, protozero internals.',
+        design='5/C03', note='verifies presence and placement of the named guards only; trusts clang CFG, the frozen guard table'),
     'C04': dict(
         technique='static analysis: storage-alias (use-after-relocation) dataflow over CFGs with interprocedural relocation summaries; member typestate; symbolic size-conservation; CFG pairing rules',
         text='Decides: no local/parameter/member pointer, reference or iterator into Buffer storage is used after a call that may relocate the storage (relocating calls closed '
